@@ -97,6 +97,17 @@ CLAIMS = {
         'technique': 'TLA+ model checking (TLC) with constants generated from the code + replay into the in-process router and the real binary + TLC trace validation',
         'design_ref': '5/C20',
     },
+    'C12': {
+        'level': 'model_checking',
+        'text': 'ReadPipeline.tla models the goroutine pipeline of a read request (scan, map/limit/fix stages, exporter, handler over unbuffered channels) with the database failing '
+                'at any row and the context cancelled at any time; TLC checks, with fairness, that every goroutine terminates and the request is answered for all pipeline shapes. '
+                'TLC enumerates (endpoint x query class x parameter x parameter class x database fault) from the driver schema (17 Loki/Prometheus/Tempo endpoints); each case plus '
+                'seeded random/mutated query strings goes to the REAL reader router over fakesql/chsql with preloaded data, scripted database faults and client aborts, in a child '
+                'process: response within 6 s, child alive (crash = observation with its panic frame), goroutine census in reader code after the request.',
+        'note': 'parameter classes exhaustive in thorough, seeded subset in quick; query strings beyond the classes sampled; Pyroscope POST endpoints not in the sweep yet.',
+        'technique': 'TLA+ pipeline model checking (liveness) + TLC-enumerated parameter/fault cases replayed into the real reader router in a child process with goroutine census',
+        'design_ref': '5/C12',
+    },
 }
 
 NOT_YET = 'check not built yet in this round (planned, see DESIGN.md section 5); not claimed until its machinery runs'
